@@ -74,7 +74,7 @@ class Result:
 
 
 class Frame:
-    __slots__ = ('fname', 'fn', 'uid', 'depth', 'visits', 'havoced', 'passes')
+    __slots__ = ('fname', 'fn', 'uid', 'depth', 'visits', 'havoced', 'passes', 'gen')
 
     def __init__(self, fname, fn, uid, depth):
         self.fname = fname
@@ -84,12 +84,14 @@ class Frame:
         self.visits = {}
         self.havoced = set()
         self.passes = {}
+        self.gen = {}
 
     def copy(self):
         f = Frame(self.fname, self.fn, self.uid, self.depth)
         f.visits = dict(self.visits)
         f.havoced = set(self.havoced)
         f.passes = dict(self.passes)
+        f.gen = dict(self.gen)
         return f
 
 
@@ -336,6 +338,8 @@ class Interp:
         fn = fr.fn
         body = self.loops_of(fr.fname)[head]
         tag = 'loop(%s:bb%d)' % (fr.fname.split('::')[-1], head)
+        if fr.gen.get(head):
+            tag += '~%d' % fr.gen[head]
         fields = set()
         unknown = False
         for b in sorted(body):
@@ -383,6 +387,12 @@ class Interp:
                     ty = fn['locals'][p['local']]['ty']
                     cur = st.mem.get(root)
                     if cur is not None and cur[0] in ('ref', 'slice', 'fn'):
+                        if p['proj'] or not self.loop_carried(fn, body, head, p['local']):
+                            continue        # a temporary: rewritten in every iteration before it is read
+                        nv = self.havoc_carried_slice(st, fr, fn, body, tag, p['local'], cur) if cur[0] == 'slice' else None
+                        if nv is None:
+                            raise Abort('loop-carried reference in local _%d is not summarised' % p['local'])
+                        st.mem[root] = nv
                         continue
                     if cur is not None and not p['proj'] and is_iterator_value(cur) and \
                             not (cur[1][0] == 'adt' and cur[1][1].endswith('ops::Range')):
@@ -415,6 +425,141 @@ class Interp:
                     if last:
                         fields.add(last[-1])
         self.wrap_havoc(st, fields, unknown, tag)
+
+    @staticmethod
+    def _reads(obj, out):
+        """locals read by an operand / rvalue / place projection (JSON MIR)"""
+        if isinstance(obj, dict):
+            if 'local' in obj and 'proj' in obj:
+                out.add(obj['local'])
+                for e in obj['proj']:
+                    if e.get('k') == 'index' and 'local' in e:
+                        out.add(e['local'])
+                return
+            for v in obj.values():
+                Interp._reads(v, out)
+        elif isinstance(obj, list):
+            for v in obj:
+                Interp._reads(v, out)
+
+    def loop_carried(self, fn, body, head, local):
+        """is `local` live at the loop head: read on some path from the head (inside the body) before it is assigned?"""
+        key = ('carried', fn['name'] if 'name' in fn else id(fn), head, local)
+        cache = self.__dict__.setdefault('_carried', {})
+        if key in cache:
+            return cache[key]
+        seen = set()
+        stack = [head]
+        live = False
+        while stack and not live:
+            b = stack.pop()
+            if b in seen or b not in body:
+                continue
+            seen.add(b)
+            blk = fn['blocks'][b]
+            killed = False
+            for s_ in blk['stmts']:
+                if s_['k'] != 'assign':
+                    continue
+                rd = set()
+                self._reads(s_['rv'], rd)
+                if s_['place']['proj']:
+                    self._reads(s_['place'], rd)
+                if local in rd:
+                    live = True
+                    break
+                if s_['place']['local'] == local and not s_['place']['proj']:
+                    killed = True
+                    break
+            if live or killed:
+                continue
+            t = blk['term']
+            rd = set()
+            for k_ in ('args', 'discr', 'cond', 'func', 'index', 'len', 'a', 'b'):
+                if k_ in t:
+                    self._reads(t[k_], rd)
+            if t['k'] == 'drop' and 'place' in t:
+                pass
+            if local in rd:
+                live = True
+                break
+            if t['k'] == 'call' and t['dest']['local'] == local and not t['dest']['proj']:
+                continue
+            for nb in self.prog_succs(fn, b):
+                stack.append(nb)
+        cache[key] = live
+        return live
+
+    @staticmethod
+    def prog_succs(fn, b):
+        t = fn['blocks'][b]['term']
+        k = t['k']
+        if k in ('goto', 'drop', 'assert'):
+            return [t['target']]
+        if k == 'call':
+            return [t['target']] if t['target'] is not None and t['target'] >= 0 else []
+        if k == 'switch':
+            return [x[1] for x in t['targets']] + [t['otherwise']]
+        return []
+
+    def havoc_carried_slice(self, st, fr, fn, body, tag, local, cur):
+        """A slice carried round the loop.  Summarised only when every assignment to it inside the loop takes a suffix of
+        its current value (split_at(..).1, [k..]): the end stays fixed, the start advances by an unknown amount"""
+        for b in body:
+            blk = fn['blocks'][b]
+            for s_ in blk['stmts']:
+                if s_['k'] == 'assign' and s_['place']['local'] == local and not s_['place']['proj']:
+                    if not self._suffix_source(fn, body, s_['rv'], local, 0):
+                        return None
+            t = blk['term']
+            if t['k'] == 'call' and t['dest']['local'] == local and not t['dest']['proj']:
+                if not self._suffix_call(fn, body, t, local, 0):
+                    return None
+        _, root, path, off, ln = cur
+        adv = S(64, 'loopvar:%s:_%d.advance' % (tag, local))
+        st.env.assume_eq(O(1, 'ule', adv, ln), 1)
+        st.events.append(('loopinit', adv, C(64, 0), ln))
+        return ('slice', root, path, O(64, 'add', off, adv), O(64, 'sub', ln, adv))
+
+    def _suffix_source(self, fn, body, rv, local, depth):
+        if depth > 6:
+            return False
+        if rv['k'] == 'use' and rv['op']['k'] in ('copy', 'move'):
+            pl = rv['op']['place']
+            src = pl['local']
+            proj = pl['proj']
+            if src == local and not proj:
+                return True
+            # a field of a tuple produced by split_at: field 1 is the suffix
+            defs = [(b, s_) for b in body for s_ in fn['blocks'][b]['stmts']
+                    if s_['k'] == 'assign' and s_['place']['local'] == src and not s_['place']['proj']]
+            calls = [fn['blocks'][b]['term'] for b in body if fn['blocks'][b]['term']['k'] == 'call'
+                     and fn['blocks'][b]['term']['dest']['local'] == src and not fn['blocks'][b]['term']['dest']['proj']]
+            if len(proj) == 1 and proj[0]['k'] == 'field' and proj[0]['i'] == 1 and len(calls) == 1 and not defs:
+                c = calls[0]['resolved'] or calls[0]['callee']
+                if c.endswith('<impl [T]>::split_at') and self._is_local_ref(fn, body, calls[0]['args'][0], local, depth + 1):
+                    return True
+                return False
+            if not proj and len(defs) == 1 and not calls:
+                return self._suffix_source(fn, body, defs[0][1]['rv'], local, depth + 1)
+            if not proj and len(calls) == 1 and not defs:
+                return self._suffix_call(fn, body, calls[0], local, depth + 1)
+            return False
+        if rv['k'] == 'ref' and rv['place']['proj'] == [{'k': 'deref'}]:
+            return self._suffix_source(fn, body, {'k': 'use', 'op': {'k': 'copy', 'place': {'local': rv['place']['local'],
+                                                                                            'proj': []}}}, local, depth + 1)
+        return False
+
+    def _suffix_call(self, fn, body, t, local, depth):
+        c = t['resolved'] or t['callee']
+        if c.endswith('::index') and 'RangeFrom' in (t.get('generics') or ''):
+            return self._is_local_ref(fn, body, t['args'][0], local, depth + 1)
+        return False
+
+    def _is_local_ref(self, fn, body, op, local, depth):
+        if op['k'] not in ('copy', 'move'):
+            return False
+        return self._suffix_source(fn, body, {'k': 'use', 'op': op}, local, depth)
 
     def havoc_iterator(self, st, tag, local, v, sfx=''):
         """loop-head summary of a modelled iterator value held in a local: only its position advances, within its bounds"""
@@ -1028,6 +1173,16 @@ class Interp:
                         # back at the head: this iteration is covered by the havoced state
                         yield Result('loopback', None, st, (fr.fname, 0, bb), 'loop iteration')
                         return
+                    # loops nested in this one start afresh in the new iteration (summarised again, with new symbols)
+                    inner = self.loops_of(fr.fname).get(bb, ())
+                    for b_ in inner:
+                        if b_ != bb:
+                            fr.visits.pop(b_, None)
+                    for h in list(fr.havoced):
+                        if h != bb and h in inner:
+                            fr.havoced.discard(h)
+                            fr.passes.pop(h, None)
+                            fr.gen[h] = fr.gen.get(h, 0) + 1
                     st.events.append(('iteration', fr.fname, bb, fr.passes[bb],
                                       tuple(sorted(((k[2], v) for k, v in st.mem.items()
                                                     if k[0] == 'L' and k[1] == fr.uid), key=lambda kv: kv[0]))))
@@ -1474,6 +1629,65 @@ def _tuple2(a, b):
     return ('agg', ('tuple',), (a, b))
 
 
+# the forwarding operator impls on references: <&usize as Mul<usize>>::mul, <u8 as BitAnd<&u8>>::bitand, ...
+_REF_OP = re.compile(r"^<(&(?:'\w+ )?)?(\w+) as std::ops::(\w+)<(&(?:'\w+ )?)?(\w+)>>::(\w+)$")
+_OPS = {'Add': ('add', True), 'Sub': ('sub', True), 'Mul': ('mul', True), 'BitAnd': ('and', False), 'BitOr': ('or', False),
+        'BitXor': ('xor', False), 'Div': ('udiv', False), 'Rem': ('urem', False)}
+
+
+def ref_operator_model(bits, signed, opname):
+    if opname not in _OPS or signed:
+        return None
+    op, checked = _OPS[opname]
+
+    def model(ip, st, fr, t, args, site, dest_ty):
+        vals = []
+        for a in args:
+            if a is not None and a[0] == 'ref':
+                a = ip.read(st, a[1], a[2])
+            vals.append(a)
+        if len(vals) != 2 or not all(is_int(v) and v[1] == bits for v in vals):
+            yield from ip.unknown_external(st, t['resolved'] or t['callee'], args, site, dest_ty, t)
+            return
+        a, b = vals
+        if op in ('udiv', 'urem'):
+            z = st.env.const_of(O(1, 'eq', b, C(bits, 0)))
+            if z != 0:
+                if 'div_zero' in ip.trust_asserts or 'overflow' in ip.trust_asserts:
+                    st.env.assume_eq(O(1, 'eq', b, C(bits, 0)), 0)
+                else:
+                    sf = st.copy()
+                    if sf.env.assume_eq(O(1, 'eq', b, C(bits, 0)), 1):
+                        sf.events.append(('assert', 'div_zero', site, 'may_fail', ('div_zero', b)))
+                        yield (None, sf, 'panic', 'assert div_zero')
+                    if not st.env.assume_eq(O(1, 'eq', b, C(bits, 0)), 0):
+                        return
+        if checked:
+            ovf = O(1, op + '_ovf', a, b)
+            cv = st.env.const_of(ovf)
+            akind = 'overflow:' + opname
+            if cv == 1:
+                st.events.append(('assert', akind, site, 'fails', ('overflow', a, b)))
+                yield (None, st, 'panic', 'assert ' + akind)
+                return
+            if cv is None:
+                if 'overflow' in ip.trust_asserts:
+                    st.events.append(('assert', akind, site, 'trusted', ('overflow', a, b)))
+                    st.env.assume_eq(ovf, 0)
+                else:
+                    sf = st.copy()
+                    if sf.env.assume_eq(ovf, 1):
+                        sf.events.append(('assert', akind, site, 'may_fail', ('overflow', a, b)))
+                        yield (None, sf, 'panic', 'assert ' + akind)
+                    st.events.append(('assert', akind, site, 'may_fail', ('overflow', a, b)))
+                    if not st.env.assume_eq(ovf, 0):
+                        return
+            else:
+                st.events.append(('assert', akind, site, 'discharged', ('overflow', a, b)))
+        yield (O(bits, op, a, b), st, 'ok', None)
+    return model
+
+
 def int_method_model(callee):
     """exact models of the inherent integer methods (core::num::<impl T>::m) and the lossless From conversions"""
     mm = _INT_FROM.match(callee)
@@ -1495,6 +1709,9 @@ def int_method_model(callee):
             else:
                 yield (st.fresh(dbits, 'from'), st, 'ok', None)
         return conv
+    mm = _REF_OP.match(callee)
+    if mm and mm.group(2) in INT_TYS and mm.group(5) == mm.group(2) and mm.group(3).lower() == mm.group(6).replace('_', ''):
+        return ref_operator_model(INT_TYS[mm.group(2)][0], INT_TYS[mm.group(2)][1], mm.group(3))
     mm = _INT_METHOD.match(callee)
     if not mm or mm.group(1) not in INT_TYS:
         return None
@@ -1811,6 +2028,19 @@ def m_copy_from_slice(ip, st, fr, t, args, site, dest_ty):
             v = st.fresh(8, 'byte')
         ip.write(st, droot, dpath + (('i', O(64, 'add', doff, C(64, i)), 'u8'),), v, site)
     yield (T.UNIT, st, 'ok', None)
+
+
+def m_split_at(ip, st, fr, t, args, site, dest_ty):
+    """<[T]>::split_at(mid): (&self[..mid], &self[mid..]); panics when mid > len"""
+    view = _as_view(ip, st, args[0])
+    mid = args[1]
+    if view is None or mid is None or not is_int(mid):
+        yield from ip.unknown_external(st, t['resolved'] or t['callee'], args, site, dest_ty, t)
+        return
+    root, path, off, ln = view
+    mk = lambda s: ('agg', ('tuple',), (('slice', root, path, off, mid),
+                                        ('slice', root, path, O(64, 'add', off, mid), O(64, 'sub', ln, mid))))
+    yield from _bounds_fork(ip, st, site, O(1, 'ule', mid, ln), ('slice_range', mid, ln), mk)
 
 
 def m_identity(ip, st, fr, t, args, site, dest_ty):
@@ -2140,6 +2370,50 @@ def m_and_then(ip, st, fr, t, args, site, dest_ty):
     yield from call_some(st, inner)
 
 
+def m_option_map(ip, st, fr, t, args, site, dest_ty):
+    """Option::map(opt, closure): None stays None, Some(x) becomes Some(closure(x))"""
+    opt, clo = args
+    none = ('agg', ('adt', 'std::option::Option', 0, 'None'), ())
+    if clo is None or clo[0] != 'agg' or clo[1][0] != 'closure':
+        yield from ip.unknown_external(st, t['resolved'] or t['callee'], args, site, dest_ty, t)
+        return
+    cpath = clo[1][1]
+
+    def call_some(s, inner):
+        for r in ip.call_fn(cpath, [clo, inner], s, fr.depth + 1, site):
+            if r.status == 'ok':
+                yield (('agg', SOME, (r.ret,)), r.state, 'ok', None)
+            else:
+                yield (None, r.state, r.status, (r.where, r.detail))
+
+    if opt is not None and opt[0] == 'agg' and opt[1][0] == 'adt':
+        if opt[1][3] == 'None':
+            yield (none, st, 'ok', None)
+        else:
+            yield from call_some(st, opt[2][0])
+        return
+    s2 = st.copy()
+    yield (none, s2, 'ok', None)
+    inner = None
+    if opt is not None:
+        inner = ip.project(st, ip.project(st, opt, ('d', 1, 'Some')), ('f', 0, '0', '', ''))
+    if inner is None:
+        inner = st.fresh(0, 'some')
+    yield from call_some(st, inner)
+
+
+def m_option_is(which):
+    def f(ip, st, fr, t, args, site, dest_ty):
+        v = args[0]
+        if v is not None and v[0] == 'ref':
+            v = ip.read(st, v[1], v[2])
+        if v is not None and v[0] == 'agg' and v[1][0] == 'adt' and v[1][3] in ('Some', 'None'):
+            yield (C(1, 1 if v[1][3] == which else 0), st, 'ok', None)
+        else:
+            yield (st.fresh(1, 'is_' + which.lower()), st, 'ok', None)
+    return f
+
+
 CF = 'std::ops::ControlFlow'
 
 
@@ -2220,6 +2494,8 @@ STD_MODELS = {
     'core::slice::<impl [T]>::iter': m_slice_iter,
     'core::slice::<impl [T]>::iter_mut': m_slice_iter,
     'core::slice::<impl [T]>::is_empty': m_slice_is_empty,
+    'core::slice::<impl [T]>::split_at': m_split_at,
+    'core::slice::<impl [T]>::split_at_mut': m_split_at,
     'core::slice::<impl [T]>::get': m_slice_get,
     'core::slice::<impl [T]>::get_mut': m_slice_get,
     'std::iter::Iterator::enumerate': m_enumerate,
@@ -2231,6 +2507,9 @@ STD_MODELS = {
     'std::option::Option::<T>::unwrap': m_option_unwrap,
     'std::option::Option::<T>::expect': m_option_unwrap,
     'std::option::Option::<T>::and_then': m_and_then,
+    'std::option::Option::<T>::map': m_option_map,
+    'std::option::Option::<T>::is_some': m_option_is('Some'),
+    'std::option::Option::<T>::is_none': m_option_is('None'),
     # formatting machinery: pure value constructors
     'core::fmt::rt::Argument::<\'_>::new_*': m_pure('fmtarg', 0),
     'std::fmt::Arguments::<\'a>::new': m_pure('fmtargs', 0),
